@@ -164,6 +164,14 @@ def gen_cases(rng, tier):
     for k in range(n_al):
         force = {0: "pos", 1: "neg"}.get(k % 6)      # a third of the cases: objective drives a one-directional cycle
         net = gen_net(rng, max_al if k % 3 else min(max_al, 3), min_int=1, force=force)
+        if k % 4 == 2:
+            # the largest bound magnitude of the model is a LOWER bound (reactions written the other way round)
+            for r in net["rxns"]:
+                lo, hi = gennet.num(r["lb"]), gennet.num(r["ub"])
+                if hi is not None and hi > 10:
+                    r["ub"] = "10" if (lo is None or lo <= 10) else str(lo)
+                if lo is not None and lo < 0:
+                    r["lb"] = "-1000"
         cases.append({"kind": "al", "net": net})
     return cases
 
